@@ -6,9 +6,13 @@ EXTENDS Integers, Sequences
 
 DefFw == [pid |-> "INT", at |-> "INT", dom |-> 0, mint |-> "NONE", caller |-> "NONE", tok |-> "NONE",
           rcp |-> "NONE", hook |-> "NONE", gas |-> 0, maxfee |-> 0, meta |-> "NONE", to |-> "U", pt |-> 0]
+DefG == [pp |-> <<>>, pcc |-> <<>>, pa |-> <<>>, amts |-> <<>>, cnts |-> <<>>, params |-> 0]
+DefQ == [kind |-> "", by |-> "", pid |-> "", limit |-> 0, walk |-> "", reverse |-> FALSE, countTotal |-> FALSE,
+         sp |-> "", sc |-> "", dp |-> "", dc |-> "", denom |-> ""]
 DefIn == [t |-> "", chan |-> 0, rcv |-> "", dn |-> "", base |-> "", amt |-> 0, amtc |-> "OK", mk |-> "",
           fw |-> DefFw, acts |-> <<>>, raw |-> "", faults |-> <<>>, rpc |-> "", signer |-> "", pid |-> "",
-          cps |-> <<>>, cpc |-> <<>>, aid |-> "", v |-> 0, denom |-> "", op |-> "", who |-> ""]
+          cps |-> <<>>, cpc |-> <<>>, aid |-> "", v |-> 0, denom |-> "", op |-> "", who |-> "",
+          ids |-> <<>>, g |-> DefG, q |-> DefQ]
 
 FwCCTP(dom, mint, caller) == [DefFw EXCEPT !.pid = "CCTP", !.at = "CCTP", !.dom = dom, !.mint = mint, !.caller = caller, !.to = "NONE"]
 FwHYP(tok, dom, rcp)      == [DefFw EXCEPT !.pid = "HYP", !.at = "HYP", !.tok = tok, !.dom = dom, !.rcp = rcp, !.to = "NONE"]
@@ -39,6 +43,11 @@ UpdateParams(s, v)  == [AdminIn("UpdateParams", s) EXCEPT !.v = v]
 DepositIn(denom, amt) == [DefIn EXCEPT !.t = "deposit", !.denom = denom, !.amt = amt, !.who = "M"]
 EnvIn(op, who)        == [DefIn EXCEPT !.t = "env", !.op = op, !.who = who]
 ReimportIn            == [DefIn EXCEPT !.t = "reimport"]
+
+\* identifier probes (C20): ids = sequence of [cp, chars, dom]
+IdentIn(pid, ids) == [DefIn EXCEPT !.t = "ident", !.pid = pid, !.ids = ids]
+GenDocIn(g) == [DefIn EXCEPT !.t = "gendoc", !.g = g]
+QueryIn(q) == [DefIn EXCEPT !.t = "query", !.q = q]
 
 \* common counterparty spellings with their characters
 Cp0 == <<"0", <<"0">>>>
